@@ -1,7 +1,178 @@
-import KcpVerif.Model.Cfb
+import KcpVerif.Lemmas.CfbShell
+/-!
+C08 — ciphers round-trip every length and equal textbook CFB.
+
+Model: `KcpVerif/Model/Cfb.lean` (the unrolled helpers of crypt.go over an explicit two-slice
+memory).  All statements are for EVERY packet length (no bound), every block function `E` that
+maps blocks to blocks, both block sizes, and both memory layouts (`alias = true`: the call
+`Encrypt(buf, buf)`; `alias = false`: a separate destination with arbitrary contents, possibly
+longer than the packet).  Helper lemmas: `KcpVerif/Lemmas/Cfb*.lean`.
+-/
 namespace KcpVerif.Props
 open KcpVerif KcpVerif.Cfb
 
-theorem C08_placeholder : xorB [] [] = [] := rfl
+/-- contract of `cipher.Block.Encrypt` as far as CFB needs it: a block maps to a block -/
+def BlockFn (bs : Nat) (E : Bytes → Bytes) : Prop := ∀ x : Bytes, x.length = bs → (E x).length = bs
+
+/-- the IV a cipher of block size `bs` sees: `block.Encrypt(tbl, initialVector)` reads the first
+block; `crypto/cipher.NewCFBEncrypter(block, initialVector[:bs])` -/
+def iv (bs : Nat) : Bytes := Gen.initialVector.take bs
+
+theorem C08_iv_fits (bs : Nat) (h : bs = 8 ∨ bs = 16) : bs ≤ Gen.initialVector.length := by
+  rcases h with rfl | rfl <;> decide
+
+/-- **unrolled encrypt = textbook CFB.**  The call does not panic, `dst[0:len(src)]` holds the
+textbook ciphertext, the rest of `dst` is untouched, and `src` is untouched unless it is the
+same memory. -/
+theorem C08_enc_unrolled_eq_textbook (bs : Nat) (hbs : bs = 8 ∨ bs = 16) (E : Bytes → Bytes)
+    (hE : BlockFn bs E) (src dst : Bytes) (alias : Bool) (hlen : src.length ≤ dst.length)
+    (hal : alias = true → dst = src) :
+    ∃ r, encrypt E bs src dst alias = some r ∧
+      r.dst = cfbEnc E bs (iv bs) src ++ dst.drop src.length ∧
+      r.src = (if alias then r.dst else src) := by
+  have hiv := C08_iv_fits bs hbs
+  rcases hbs with rfl | rfl
+  · refine ⟨_, rfl, ?_⟩
+    rw [encrypt8_eq_steps]
+    obtain ⟨h1, h2, h3, h4⟩ := enc_start E 8 (by decide) hiv hE true src dst alias [] hlen
+      (fun h => (hal h).symm)
+    refine ⟨h1, ?_⟩
+    cases alias
+    · exact h3 rfl
+    · exact h4 rfl
+  · refine ⟨_, rfl, ?_⟩
+    rw [encrypt16_eq_steps]
+    obtain ⟨h1, h2, h3, h4⟩ := enc_start E 16 (by decide) hiv hE false src dst alias [] hlen
+      (fun h => (hal h).symm)
+    refine ⟨h1, ?_⟩
+    cases alias
+    · exact h3 rfl
+    · exact h4 rfl
+
+/-- **unrolled decrypt = textbook CFB**, in place and out of place; the result does not depend
+on what the working buffer held (`next0`). -/
+theorem C08_dec_unrolled_eq_textbook (bs : Nat) (hbs : bs = 8 ∨ bs = 16) (E : Bytes → Bytes)
+    (hE : BlockFn bs E) (src dst : Bytes) (alias : Bool) (next0 : Bytes)
+    (hlen : src.length ≤ dst.length) (hal : alias = true → dst = src) :
+    ∃ r, decrypt E bs src dst alias next0 = some r ∧
+      r.dst = cfbDec E bs (iv bs) src ++ dst.drop src.length ∧
+      r.src = (if alias then r.dst else src) := by
+  have hiv := C08_iv_fits bs hbs
+  rcases hbs with rfl | rfl
+  · refine ⟨_, rfl, ?_⟩
+    rw [decrypt8_eq_steps]
+    obtain ⟨h1, h2, h3, h4⟩ := dec_start E 8 (by decide) hiv hE true src dst alias next0 hlen
+      (fun h => (hal h).symm)
+    refine ⟨h1, ?_⟩
+    cases alias
+    · exact h3 rfl
+    · exact h4 rfl
+  · refine ⟨_, rfl, ?_⟩
+    rw [decrypt16_eq_steps]
+    obtain ⟨h1, h2, h3, h4⟩ := dec_start E 16 (by decide) hiv hE false src dst alias next0 hlen
+      (fun h => (hal h).symm)
+    refine ⟨h1, ?_⟩
+    cases alias
+    · exact h3 rfl
+    · exact h4 rfl
+
+/-- textbook CFB preserves the length -/
+theorem C08_cfb_length (bs : Nat) (hbs : bs = 8 ∨ bs = 16) (E : Bytes → Bytes) (hE : BlockFn bs E)
+    (x : Bytes) : (cfbEnc E bs (iv bs) x).length = x.length := by
+  have hiv := C08_iv_fits bs hbs
+  have h0 : 0 < bs := by rcases hbs with rfl | rfl <;> decide
+  exact length_cfbEnc E bs h0 hE x.length x (iv bs) (Nat.le_refl _)
+    (by rw [iv, List.length_take]; omega)
+
+/-- **CFB round trip**, every length, all four combinations of in-place / out-of-place
+encryption and decryption, no property of `E` beyond "blocks to blocks". -/
+theorem C08_cfb_roundtrip (bs : Nat) (hbs : bs = 8 ∨ bs = 16) (E : Bytes → Bytes)
+    (hE : BlockFn bs E) (next0 x d1 d2 : Bytes) (a1 a2 : Bool)
+    (h1 : x.length ≤ d1.length) (h2 : x.length ≤ d2.length) :
+    RoundTripAt (encrypt E bs) (fun s d a => decrypt E bs s d a next0) x d1 d2 a1 a2 := by
+  have hiv := C08_iv_fits bs hbs
+  have h0 : 0 < bs := by rcases hbs with rfl | rfl <;> decide
+  have hl := C08_cfb_length bs hbs E hE x
+  refine RoundTripAt.of_spec (F := cfbEnc E bs (iv bs)) (G := cfbDec E bs (iv bs)) ?_ ?_ hl ?_ h1 h2
+  · intro d a hd ha
+    obtain ⟨r, e, hr, _⟩ := C08_enc_unrolled_eq_textbook bs hbs E hE x d a hd ha
+    refine ⟨r, e, ?_⟩
+    rw [hr, ← hl, List.take_left' rfl]
+  · intro d a hd ha
+    obtain ⟨r, e, hr, _⟩ := C08_dec_unrolled_eq_textbook bs hbs E hE _ d a next0 hd ha
+    refine ⟨r, e, ?_⟩
+    rw [hr]
+    have : (cfbDec E bs (iv bs) (cfbEnc E bs (iv bs) x)).length = (cfbEnc E bs (iv bs) x).length := by
+      rw [cfb_roundtrip E bs h0 hE x.length x (iv bs) (Nat.le_refl _)
+        (by rw [iv, List.length_take]; omega), hl]
+    rw [← this, List.take_left' rfl]
+  · exact cfb_roundtrip E bs h0 hE x.length x (iv bs) (Nat.le_refl _)
+      (by rw [iv, List.length_take]; omega)
+
+/-! ### stream / xor / none -/
+
+/-- none: round trip for every length, every layout -/
+theorem C08_stream_roundtrip_none (x d1 d2 : Bytes) (a1 a2 : Bool)
+    (h1 : x.length ≤ d1.length) (h2 : x.length ≤ d2.length) :
+    RoundTripAt (fun s d a => some (noneCrypt s d a)) (fun s d a => some (noneCrypt s d a))
+      x d1 d2 a1 a2 := by
+  refine RoundTripAt.of_spec (F := id) (G := id) ?_ ?_ rfl rfl h1 h2
+  · intro d a _ ha; exact ⟨_, rfl, none_spec x d a ha⟩
+  · intro d a _ ha; exact ⟨_, rfl, none_spec x d a ha⟩
+
+/-- xor with a table at least as long as the packet (the package's table has `mtuLimit`
+bytes): round trip for every such length, every layout -/
+theorem C08_stream_roundtrip_xor (tbl x d1 d2 : Bytes) (a1 a2 : Bool)
+    (ht : tbl.length = Gen.mtuLimit) (hx : x.length ≤ Gen.mtuLimit)
+    (h1 : x.length ≤ d1.length) (h2 : x.length ≤ d2.length) :
+    RoundTripAt (fun s d a => some (xorCrypt tbl s d a)) (fun s d a => some (xorCrypt tbl s d a))
+      x d1 d2 a1 a2 := by
+  have hl : (xorB x tbl).length = x.length := by rw [length_xorB]; omega
+  refine RoundTripAt.of_spec (F := fun s => xorB s tbl) (G := fun s => xorB s tbl) ?_ ?_ hl ?_ h1 h2
+  · intro d a _ _; exact ⟨_, rfl, xor_spec tbl x d a (by omega)⟩
+  · intro d a _ _; exact ⟨_, rfl, xor_spec tbl _ d a (by show (xorB x tbl).length ≤ _; omega)⟩
+  · exact xorB_cancel _ _ (by omega)
+
+/-- salsa20 shell, code as it is: round trip whenever the packet has at least the 8 nonce
+bytes (sessions always pass ≥ 20 bytes, in place).  For 1..7 bytes see
+`C08_salsa_short_counterexample` (defect D4). -/
+theorem C08_stream_roundtrip_salsa20_partial (ks : Bytes → Nat → UInt8) (x d1 d2 : Bytes)
+    (a1 a2 : Bool) (h8 : 8 ≤ x.length)
+    (h1 : x.length ≤ d1.length) (h2 : x.length ≤ d2.length) :
+    RoundTripAt (fun s d a => some (salsaEncrypt ks s d a)) (fun s d a => some (salsaDecrypt ks s d a))
+      x d1 d2 a1 a2 := by
+  have hl := length_salsaLong ks x h8
+  refine RoundTripAt.of_spec (F := salsaLong ks) (G := salsaLong ks) ?_ ?_ hl
+    (salsaLong_involutive ks x h8) h1 h2
+  · intro d a hd ha
+    refine ⟨_, rfl, ?_⟩
+    have := salsa_body_spec ks x d a h8 hd ha
+    simp only [salsaEncrypt, if_neg (Nat.not_lt.2 h8)]
+    exact this
+  · intro d a hd ha
+    refine ⟨_, rfl, ?_⟩
+    have := salsa_body_spec ks (salsaLong ks x) d a (by omega) hd ha
+    simp only [salsaDecrypt, if_neg (Nat.not_lt.2 (show 8 ≤ (salsaLong ks x).length by omega))]
+    exact this
+
+/-- the full statement the property asks for -/
+def C08_stream_roundtrip_salsa20_full : Prop :=
+  ∀ (ks : Bytes → Nat → UInt8) (x d1 d2 : Bytes) (a1 a2 : Bool),
+    x.length ≤ d1.length → x.length ≤ d2.length →
+    RoundTripAt (fun s d a => some (salsaEncrypt ks s d a)) (fun s d a => some (salsaDecrypt ks s d a))
+      x d1 d2 a1 a2
+
+/-- D4 on the model: a 1-byte packet encrypted into a separate buffer is not written at all, so
+the round trip returns whatever the destination held.  Replayed on the real code by the oracle
+(`salsa20-short-outofplace`). -/
+theorem C08_salsa_short_counterexample : ¬ C08_stream_roundtrip_salsa20_full := by
+  intro h
+  obtain ⟨m1, e1, m2, e2, r⟩ := h (fun _ _ => 0) [1] [9] [7] false false (by decide) (by decide)
+  simp only [salsaEncrypt, salsaDecrypt, Bool.false_eq_true, if_false, List.length_cons,
+    List.length_nil, Option.some.injEq] at e1 e2
+  subst e1
+  simp at e2
+  subst e2
+  simp at r
 
 end KcpVerif.Props
